@@ -259,6 +259,7 @@ pub fn run(ctx: &mut Ctx) {
                     0 => BigUint::from(1 + idx % 3),
                     1 => &c.n - 1u32 - BigUint::from(idx % 2),
                     2 | 3 => sparse_scalar(&mut p, 1 + (idx / 13) % 14),
+                    4 => run_scalar(&mut p, &c.n),
                     _ => rand_scalar(&mut p, &c.n),
                 };
                 let lay = LAYOUTS[lay_i];
